@@ -194,6 +194,18 @@ func (r *runner) tableWriter(st *reftable.Stack, idx uint64, part [][2]string, m
 	}
 }
 
+// tableWriterRange writes a table whose header claims the update-index range [lo, hi] (records at lo).
+func (r *runner) tableWriterRange(lo, hi uint64, part [][2]string, mark int) func(w *reftable.Writer) error {
+	inner := r.tableWriter(nil, lo, part, mark)
+	return func(w *reftable.Writer) error {
+		if err := inner(w); err != nil {
+			return err
+		}
+		w.SetLimits(lo, hi)
+		return nil
+	}
+}
+
 // doCall performs one API call on handle h and logs call / ret / view events.
 func (r *runner) doCall(h int, c Call) {
 	hst := r.hs[h]
@@ -232,6 +244,24 @@ func (r *runner) doCall(h int, c Call) {
 				idx := st.NextUpdateIndex()
 				for i, p := range c.Parts {
 					if err = tr.Add(r.tableWriter(st, idx+uint64(i), p, c.Txn*10+i)); err != nil {
+						break
+					}
+				}
+				if err == nil {
+					err = tr.Commit()
+				}
+				tr.Close()
+			}
+		case "overlap":
+			// a caller that tries to add, in one transaction, a second table whose update-index range starts
+			// inside the range of the first: must be refused (C05: ranges strictly increasing)
+			var tr *reftable.Addition
+			tr, err = st.NewAddition()
+			if err == nil {
+				idx := st.NextUpdateIndex()
+				for i, p := range c.Parts {
+					lo := idx + uint64(i)
+					if err = tr.Add(r.tableWriterRange(lo, lo+2, p, c.Txn*10+i)); err != nil {
 						break
 					}
 				}
